@@ -867,3 +867,153 @@ Proof.
   - intros y ws2 Hy. cbn [fst] in Hy. lstep. destruct flipped; lia.
 Qed.
 Local Open Scope Z_scope.
+
+(* ================================================================================================ *)
+(* Binomial: the Poisson limit (1 - p == 1.0) and the complete sampler                               *)
+Local Open Scope R_scope.
+
+(* Knuth's loop returns k only if the product of k uniforms exceeded exp(-lambda); every binary64
+   uniform is at most 1 - 2^-53, so k = 0 or exp(-lambda) < (1 - 2^-53)^k *)
+Definition x53 : R := / 2 ^ 53.
+Lemma x53_range : 0 < x53 <= 1.
+Proof.
+  unfold x53. assert (1 <= 2 ^ 53) by (apply pow_R1_Rle; lra). split; [apply Rinv_0_lt_compat; lra|].
+  apply Rle_trans with (/ 1); [apply Rinv_le_contravar; lra|rewrite Rinv_1; lra].
+Qed.
+Lemma uR_std64_le w : word w -> 0 <= uR_std F64 w <= 1 - x53.
+Proof.
+  intros Hw. pose proof (top53_range w Hw) as [A B]. unfold uR_std, x53.
+  apply IZR_le in A, B. rewrite minus_IZR, IZR_2_53 in B. simpl (IZR 1) in B. simpl (IZR 0) in A.
+  assert (0 < 2 ^ 53) by (apply pow_lt; lra). split.
+  - apply div_ge_0; assumption.
+  - apply Rmult_le_reg_r with (2 ^ 53); [assumption|]. unfold Rdiv. rewrite Rmult_assoc, Rinv_l by lra.
+    rewrite Rmult_minus_distr_r, Rinv_l by lra. lra.
+Qed.
+
+Lemma knuth_loop_bound fuel : forall el EL p P (r : nat) ws, Forall word ws ->
+  evalX el = Xreal EL -> evalX p = Xreal P -> 0 <= P <= (1 - x53) ^ r -> (1 <= r)%nat ->
+  (r = 1%nat \/ EL < (1 - x53) ^ (r - 1)) ->
+  allout (fun q => exists k : nat, fst q = Z.of_nat k /\ (k = 0%nat \/ EL < (1 - x53) ^ k)) nopanic
+         (knuth_loop fuel F64 el p (Z.of_nat r) ws).
+Proof.
+  assert (0 <= 1 - x53 <= 1) as X by (pose proof x53_range; lra).
+  induction fuel as [|f IH]; intros el EL p P r ws Hw Eel Ep HP Hr Hprev; [exact nopanic2|].
+  cbn [knuth_loop]. lstep. intros x y Ex Ey. rewrite Ep in Ex. rewrite Eel in Ey. injection Ex as <-. injection Ey as <-.
+  unfold rcmp. destruct (Rlt_dec EL P) as [G|G]; lstep.
+  - destruct ws as [|w ws]; lstep; [exact nopanic1|]. apply Forall_cons_iff in Hw. destruct Hw as [Hw0 Hws].
+    pose proof (uR_std64_le w Hw0) as HU.
+    replace (Z.of_nat r + 1)%Z with (Z.of_nat (S r)) by lia.
+    apply (IH el EL _ (P * uR_std F64 w) (S r) ws Hws Eel).
+    + cbn [evalX xbin]. rewrite Ep, u_std_eval. reflexivity.
+    + split; [apply Rmult_le_pos; lra|]. rewrite <- tech_pow_Rmult, Rmult_comm.
+      apply Rmult_le_compat; lra.
+    + lia.
+    + right. replace (S r - 1)%nat with r by lia. lra.
+  - exists (r - 1)%nat. split; [lia|]. destruct Hprev as [->|H]; [left; reflexivity|right; exact H].
+Qed.
+
+Lemma exp_INR_mult x (n : nat) : exp (INR n * x) = exp x ^ n.
+Proof.
+  induction n as [|n IH]; [simpl; rewrite Rmult_0_l; apply exp_0|].
+  rewrite S_INR, Rmult_plus_distr_r, Rmult_1_l, exp_plus, IH. simpl. ring.
+Qed.
+
+(* with lambda = n p', p' <= 2^-54: exp(-lambda) < (1 - 2^-53)^k forces k <= n *)
+Lemma poisson_limit_le_n (N : nat) lam (k : nat) : 0 <= lam <= INR N * / 2 ^ 54 ->
+  exp (- lam) < (1 - x53) ^ k -> (k <= N)%nat.
+Proof.
+  intros Hl H. destruct (le_lt_dec k N) as [L|L]; [exact L|]. exfalso.
+  pose proof x53_range as X.
+  assert ((1 - x53) ^ k <= (1 - x53) ^ (S N)) as M1.
+  { replace k with (S N + (k - S N))%nat by lia. rewrite pow_add.
+    rewrite <- (Rmult_1_r ((1 - x53) ^ S N)) at 2. apply Rmult_le_compat_l; [apply pow_le; lra|].
+    apply Rle_trans with (1 ^ (k - S N)); [apply pow_incr; lra|rewrite pow1; lra]. }
+  assert ((1 - x53) ^ (S N) <= exp (- (x53 * INR (S N)))) as M2.
+  { rewrite <- (Rmult_comm (INR (S N))). replace (- (INR (S N) * x53)) with (INR (S N) * - x53) by ring.
+    rewrite exp_INR_mult. apply pow_incr. split; [lra|]. pose proof (exp_ineq1_le (- x53)). lra. }
+  assert (exp (- (x53 * INR (S N))) <= exp (- lam)) as M3.
+  { destruct (Req_dec (- (x53 * INR (S N))) (- lam)) as [->|NE]; [lra|]. left. apply exp_increasing.
+    rewrite S_INR. pose proof (pos_INR N). unfold x53 in * .
+    assert (/ 2 ^ 54 = / 2 ^ 53 / 2) as E54.
+    { change (2 ^ 54) with (2 * 2 ^ 53). rewrite Rinv_mult. lra. }
+    rewrite E54 in Hl. nra. }
+  lra.
+Qed.
+
+Lemma dy_1m_eval p : dyR (dy_1m p) = 1 - dyR p.
+Proof.
+  destruct p as [m e]. unfold dy_1m, dyR. destruct (Z.ltb_spec e 0) as [L|L]; cbn [fst snd].
+  - rewrite minus_IZR, Rmult_minus_distr_r. f_equal.
+    rewrite (IZR_Zpower radix2) by lia. rewrite bpow_powerRZ. change (IZR radix2) with 2.
+    rewrite <- powerRZ_add by lra. replace (- e + e)%Z with 0%Z by lia. reflexivity.
+  - rewrite minus_IZR, mult_IZR. rewrite (IZR_Zpower radix2) by lia. rewrite bpow_powerRZ. change (IZR radix2) with 2.
+    simpl (powerRZ 2 0). simpl (IZR 1). ring.
+Qed.
+Local Open Scope Z_scope.
+
+Local Open Scope R_scope.
+Lemma rounds_to_one_true p : rounds_to_one p = true -> dyR p <= / 2 ^ 54.
+Proof.
+  unfold rounds_to_one, dy_leb. rewrite dy_cmp_spec.
+  destruct (Rcompare_spec (dyR p) (dyR (1, -54)%Z)) as [H|H|H]; try discriminate; intros _;
+    unfold dyR at 2 in H; cbn [fst snd] in H; change (powerRZ 2 (-54)) with (/ 2 ^ 54) in H; lra.
+Qed.
+
+(* Binomial(n, p) for a u64 n and 0 <= p <= 1, every method (constant, Poisson limit, BINV, BTPE, with
+   and without the p > 1/2 flip): the result is in [0, n] and no panic site is reachable *)
+Theorem binomial_support n p ws : (0 <= n <= U64MAX)%Z -> 0 <= dyR p <= 1 -> Forall word ws ->
+  allout (fun q => (0 <= fst q <= n)%Z) nopanic (binomial n p ws).
+Proof.
+  intros Hn Hp Hw. unfold binomial.
+  destruct (dy_eqb p (0, 0)%Z) eqn:E0; [lstep; lia|].
+  destruct (dy_eqb p (1, 0)%Z) eqn:E1; [lstep; lia|].
+  apply dy_eqb_false in E0, E1. rewrite dyR_int in E0, E1.
+  set (flipped := dy_ltb (1, -1)%Z p). set (p' := if flipped then dy_1m p else p).
+  assert (dyR (1, -1)%Z = / 2) as Hh by (unfold dyR; cbn [fst snd]; change (powerRZ 2 (-1)) with (/ (2 * 1)); simpl (IZR 1); field).
+  assert (0 < dyR p' <= 1 / 2) as Hp'.
+  { unfold p', flipped. destruct (dy_ltb (1, -1)%Z p) eqn:F.
+    - apply dy_ltb_true in F. rewrite Hh in F. rewrite dy_1m_eval. lra.
+    - apply dy_ltb_false in F. rewrite Hh in F. lra. }
+  set (N := IZR n) in * .
+  assert (0 <= N) as N0 by (apply (IZR_le 0); lia).
+  assert (N = INR (Z.to_nat n)) as NN by (unfold N; rewrite INR_IZR_INZ, Z2Nat.id by lia; reflexivity).
+  cbv zeta.
+  assert (Enp : evalX (zf n *. dyx p') = Xreal (N * dyR p')) by (cbn [evalX xbin]; rewrite zf_eval, dyx_eval; reflexivity).
+  lstep. intros x y Ex Ey. rewrite Enp in Ex. rewrite num_eval in Ey. injection Ex as <-. injection Ey as <-.
+  unfold rcmp. destruct (Rlt_dec (N * dyR p') 10) as [L|L].
+  - destruct (rounds_to_one p') eqn:R1.
+    + (* Poisson limit *)
+      apply rounds_to_one_true in R1. unfold knuth.
+      destruct ws as [|w ws]; lstep; [exact nopanic1|]. apply Forall_cons_iff in Hw. destruct Hw as [Hw0 Hws].
+      pose proof (uR_std64_le w Hw0) as HU.
+      eapply allout_mono; [| |apply (knuth_loop_bound 1024 _ (exp (- (N * dyR p'))) _ (uR_std F64 w) 1 ws Hws)].
+      * intros [r rest]; cbn [fst]. intros (k & -> & Hk). split; [lia|].
+        destruct Hk as [->|Hk]; [lia|].
+        assert (k <= Z.to_nat n)%nat; [|lia].
+        apply (poisson_limit_le_n (Z.to_nat n) (N * dyR p') k); [|exact Hk].
+        rewrite <- NN. split; [nra|]. apply Rmult_le_compat_l; lra.
+      * auto.
+      * unfold eexp, eneg. change (evalX (Un Exp (Un Neg (zf n *. dyx p')))) with (Xexp (Xneg (evalX (zf n *. dyx p')))).
+        rewrite Enp. reflexivity.
+      * apply u_std_eval.
+      * rewrite pow_1. exact HU.
+      * lia.
+      * left. reflexivity.
+    + (* BINV *)
+      set (P := dyR p') in * . assert (0 < P < 1) as HP by lra.
+      assert (Eq : evalX (one -. dyx p') = Xreal (1 - P)) by (cbn [evalX xbin]; rewrite one_eval, dyx_eval; reflexivity).
+      assert (Es : evalX (dyx p' /. (one -. dyx p')) = Xreal (P / (1 - P))).
+      { change (evalX (dyx p' /. (one -. dyx p'))) with (Xdiv (evalX (dyx p')) (evalX (one -. dyx p'))).
+        rewrite Eq, dyx_eval. apply xdiv_real. lra. }
+      eapply allout_sbind; [apply (binv_outer_le_n (Z.to_nat n) P HP 64 _ _ _ ws)| |]; try exact Hw.
+      * change (evalX ((zf n +. one) *. (dyx p' /. (one -. dyx p'))))
+          with (Xmul (Xadd (evalX (zf n)) (evalX one)) (evalX (dyx p' /. (one -. dyx p')))).
+        rewrite Es, zf_eval, one_eval. fold N. rewrite NN. reflexivity.
+      * exact Es.
+      * unfold epow. change (evalX (Bin Pow (one -. dyx p') (zf n))) with (Xpow (evalX (one -. dyx p')) (evalX (zf n))).
+        rewrite Eq, zf_eval. fold N. rewrite NN. rewrite Xpow_pos by lra. f_equal. apply Rpower_pow. lra.
+      * auto.
+      * intros x ws' Hx. cbn [fst] in Hx. lstep. rewrite Z2Nat.id in Hx by lia. destruct flipped; lia.
+  - apply btpe_support with (p := dyR p'); try assumption; [apply dyx_eval|fold N; lra].
+Qed.
+Local Open Scope Z_scope.
